@@ -161,6 +161,19 @@ CLAIMS = {
              "malformed numbers) - digits are abstracted, float() of a field shimmed; templates "
              "are a finite enumeration",
         ref="§4 C18"),
+    "C16": dict(
+        text="NOT real thread schedules: the real write()/_send_statement/_wait_for_acknowledgment/"
+             "_abort_on_device_error/_on_device_message run against a recording printcore stub; the "
+             "reader thread is a scripted source of device lines delivered either inside send() or when "
+             "write() blocks in Event.wait(); z3 explores every assignment of delivery points (2^n) for "
+             "2-3 statements x 8 reply scripts and shows: statements reach the device once, in order, "
+             "unmodified; write() returns only after the line acknowledging that statement, is never "
+             "released by a status line and never blocks although the acknowledgement arrived; error/"
+             "alarm/!!/printrun errors surface as DeviceError; readings reported before or on the "
+             "acknowledging line are available when write() returns.",
+        note="a sequentialised model of the reader with TWO yield points; pre-emption elsewhere, latency, "
+             "connect/disconnect polling loops and the real printcore threads are NOT decided",
+        ref="§4 C16"),
     "C07": dict(
         text="Inductive step of I7: after any of 96 call shapes from an arbitrary consistent state "
              "(symbolic feed, power, temperatures, E parameter, tool number) every state property "
@@ -178,8 +191,6 @@ CLAIMS = {
 }
 
 NOT_APPLICABLE = {
-    "C16": "property is about real thread schedules (threading.Event, reader thread, polling); no "
-           "symbolic engine here executes multi-threaded Python",
 }
 
 
